@@ -53,6 +53,33 @@ theorem default_patterns :
     passphraseBranches = [⟨false, false, asc "enter passphrase for key", false⟩] := by
   decide
 
+/-- **both copies of each default pattern agree**: the dataclass field default (what `BaseChannelArgs()`
+    gives) and the `__post_init__` fallback that is in effect for every channel a driver builds (drivers
+    pass `""`) — as source text and as translated branches.  Everything proved about `defaultP` /
+    `defaultCfg` therefore holds for driver-built channels. -/
+theorem driver_patterns_are_the_defaults :
+    loginDriverSrc = loginPatternSrc ∧ passwordDriverSrc = passwordPatternSrc ∧
+    passphraseDriverSrc = passphrasePatternSrc ∧ loginDriverBranches = loginBranches ∧
+    passwordDriverBranches = passwordBranches ∧ passphraseDriverBranches = passphraseBranches := by
+  decide
+
+theorem driverP_eq_defaultP : driverP = defaultP := by
+  funext k
+  cases k <;> simp [driverP, defaultP, driver_patterns_are_the_defaults.2.2.2.1,
+    driver_patterns_are_the_defaults.2.2.2.2.1, driver_patterns_are_the_defaults.2.2.2.2.2]
+
+theorem driverCfg_eq_defaultCfg (l : Loop) (pp : PromptPat) (ivl : Nat) : driverCfg l pp ivl = defaultCfg l pp ivl := by
+  simp [driverCfg, defaultCfg, driverP_eq_defaultP]
+
+/-- **a login keeps no state between calls**: several logins on one channel object (each function
+    call starts from `enter prev`, whatever state `prev` the previous call ended in) give each login
+    exactly the result it has alone -/
+theorem login_is_stateless (c : Cfg) (tapes : List (List Read)) :
+    ∀ prev, runSession c prev tapes = tapes.map (run c) := by
+  induction tapes with
+  | nil => intro prev; rfl
+  | cons t ts ih => intro prev; simp [runSession, ih, run, enter]
+
 /-! ### open system: every tape -/
 
 /-- **at most `limit` writes per credential**, any configuration -/
